@@ -170,6 +170,51 @@ EnumBInit == /\ ph = "enumB" /\ cur \in BoundaryTraces /\ ehist = <<>> /\ est = 
              /\ PrintT(ToJson([t |-> cur]))
 EnumBNext == UNCHANGED vars
 
+\* ---------------- Enum (C): call histories ---------------------------------------------------------
+\* "for all argument vectors passed to exposed callables" is a statement about every invocation, not about the first one
+\* of a function value.  ONE function value obtained from the exposed callable - the callable itself, h.bind(this, pre..),
+\* or a bound function bound again - is invoked L times, every time through any invocation form with 0..2 arguments, in
+\* one script or with one eval per step on the same context.  The arguments of invocation n carry n and the callable
+\* returns a different value on every call, so arguments or results left over from an earlier invocation show.
+ECallSeq(mk, thisv, pre, pre2, inv, rets, split) ==
+  [op |-> "callseq", mk |-> mk, thisv |-> thisv, pre |-> pre, pre2 |-> pre2, inv |-> inv, rets |-> rets, split |-> split]
+Inv(form, args) == [form |-> form, args |-> args]
+InvForms == CallForms \ {"bind"}                \* binding is how the function value is made (mk), not how it is invoked
+Callee(mk, pre, pre2) == [mk |-> mk, pre |-> pre, pre2 |-> pre2]
+SP == VStr(U("p"))
+SQ == VStr(U("q"))
+Callees == {Callee("direct", <<>>, <<>>),
+            Callee("bind", <<>>, <<>>), Callee("bind", <<SP>>, <<>>), Callee("bind", <<SP, Undef>>, <<>>),
+            Callee("bindbind", <<>>, <<SQ>>), Callee("bindbind", <<SP>>, <<>>), Callee("bindbind", <<SP>>, <<SQ, VInt(8)>>)}
+ThisVals == {Null, VInt(5), VObj(<<OP(U("t"), VInt(1))>>)}
+Arities == 0..2
+ArgsAt(n, ar) == SubSeq(<<VInt(10 * n + 1), VStr(<<115, 48 + n>>)>>, 1, ar)
+\* the callable's return values, call after call (cyclic): distinct, with falsy ones and None in between
+RetCycle == <<PySmall(101), PySmall(0), PyStr(U("r3")), PyNone, PyBool(FALSE), PyStr(<<>>), PyFloat(W1p5)>>
+RECURSIVE Hists(_)
+Hists(n) == IF n = 0 THEN {<<>>}
+            ELSE {Append(hh, Inv(f, ArgsAt(n, ar))) : hh \in Hists(n - 1), f \in InvForms, ar \in Arities}
+CalleeOK(c) == /\ c.mk \in {"direct", "bind", "bindbind"}
+               /\ (c.mk = "direct" => c.pre = <<>>) /\ (c.mk # "bindbind" => c.pre2 = <<>>)
+\* coverage law of the grid (both tiers enumerate the full product of these sets; only L differs): every way of making the
+\* function value, with and without pre-filled arguments at either stage, every invocation form, every arity
+ASSUME /\ \A c \in Callees : CalleeOK(c)
+       /\ {c.mk : c \in Callees} = {"direct", "bind", "bindbind"}
+       /\ \E c \in Callees : c.mk = "bind" /\ c.pre = <<>>
+       /\ \E c \in Callees : c.mk = "bind" /\ Len(c.pre) >= 2
+       /\ \E c \in Callees : c.mk = "bindbind" /\ c.pre = <<>> /\ c.pre2 # <<>>
+       /\ \E c \in Callees : c.mk = "bindbind" /\ c.pre # <<>> /\ c.pre2 = <<>>
+       /\ \E c \in Callees : c.mk = "bindbind" /\ c.pre # <<>> /\ c.pre2 # <<>>
+       /\ InvForms = {"call", "method", "fcall", "apply", "foreach", "map"}
+       /\ {tv.k : tv \in ThisVals} = {"null", "num", "obj"}
+       /\ Len(RetCycle) > 2 * 3                      \* no value repeats within a history of three map invocations
+EnumCInit == /\ ph = "enumC" /\ cur \in {[c |-> c, tv |-> tv, sp |-> sp] : c \in Callees, tv \in ThisVals, sp \in BOOLEAN}
+             /\ ehist = <<>> /\ est = <<>> /\ eheld = <<>> /\ rec_i = 0
+EnumCNext == /\ ph = "enumC" /\ ph' = "enumC2"
+             /\ \E hh \in Hists(L) : cur' = <<ECallSeq(cur.c.mk, cur.tv, cur.c.pre, cur.c.pre2, hh, RetCycle, cur.sp)>>
+             /\ UNCHANGED <<ehist, est, eheld, rec_i>>
+EnumCEmit == ph # "enumC2" \/ (PrintT(ToJson([t |-> cur])) /\ FALSE)
+
 \* ---------------- Enum (I): all interleavings on two names ----------------------------------------
 \* the value written by event number n carries n; containers are nested so that shallow copies show
 ValAt(n) == IF n % 2 = 1 THEN PyList(<<PySmall(n), PyList(<<PySmall(n)>>)>>)
@@ -213,6 +258,26 @@ GotOK(form, nargs, ret, got, ks) ==
     [] form = "map" -> got.k = "arr" /\ Len(got.e) = nargs /\ \A i \in 1..nargs : RetAccept(ret, got.e[i], ks)
     [] OTHER -> RetAccept(ret, got, ks)
 
+\* call histories: every call receives the pre-filled arguments followed by the arguments of ITS invocation, nothing else
+Prefill(ev) == CASE ev.mk = "direct" -> <<>> [] ev.mk = "bind" -> ev.pre [] OTHER -> ev.pre \o ev.pre2
+InvCalls(pf, iv) == IF iv.form \in {"foreach", "map"} THEN [ix \in 1..Len(iv.args) |-> pf \o <<iv.args[ix], VInt(ix - 1), VArr(iv.args)>>]
+                    ELSE <<pf \o iv.args>>
+RECURSIVE SeqCalls(_, _)
+SeqCalls(pf, inv) == IF inv = <<>> THEN <<>> ELSE InvCalls(pf, Head(inv)) \o SeqCalls(pf, Tail(inv))
+NCalls(iv) == IF iv.form \in {"foreach", "map"} THEN Len(iv.args) ELSE 1
+RECURSIVE CallsBefore(_, _)
+CallsBefore(inv, n) == IF n <= 1 THEN 0 ELSE CallsBefore(inv, n - 1) + NCalls(inv[n - 1])
+RetAt(rets, n) == rets[((n - 1) % Len(rets)) + 1]                  \* what the callable returned on its n-th call
+SeqGotOK(ev, ks) ==
+  /\ Len(ev.gots) = Len(ev.inv)
+  /\ \A n \in 1..Len(ev.inv) :
+       LET iv == ev.inv[n]  g == ev.gots[n]  off == CallsBefore(ev.inv, n)
+       IN CASE iv.form = "foreach" -> g.k = "undef"
+            [] iv.form = "map" -> g.k = "arr" /\ Len(g.e) = Len(iv.args) /\ \A jx \in 1..Len(iv.args) : RetAccept(RetAt(ev.rets, off + jx), g.e[jx], ks)
+            [] OTHER -> RetAccept(RetAt(ev.rets, off + 1), g, ks)
+SeqSupported(ev) == /\ ev.mk \in {"direct", "bind", "bindbind"} /\ Len(ev.rets) >= 1
+                    /\ \A n \in 1..Len(ev.inv) : ev.inv[n].form \in InvForms
+
 \* one event: [st (store after), good, clause, exp]
 R(st, good, clause, exp) == [st |-> st, good |-> good, clause |-> clause, exp |-> exp]
 ValueOK(exp, ev) == ev.o = "value" /\ EqPy(exp, ev.out)
@@ -235,6 +300,11 @@ JStep(ev, st, ks) ==
          IN IF ev.o # "value" THEN R(st, FALSE, "call-failed", PyNone)
             ELSE IF ~CallsOK(exp, ev.calls) THEN R(st, FALSE, "call-arguments", PyNone)
             ELSE R(st, GotOK(ev.form, Len(ev.args), ev.ret, ev.got, ks), "call-return", PyNone)
+    [] ev.op = "callseq" ->
+         IF ~SeqSupported(ev) THEN R(st, FALSE, "unsupported", PyNone)
+         ELSE IF ev.o # "value" THEN R(st, FALSE, "callseq-failed", PyNone)
+         ELSE IF ~CallsOK(SeqCalls(Prefill(ev), ev.inv), ev.calls) THEN R(st, FALSE, "callseq-arguments", PyNone)
+         ELSE R(st, SeqGotOK(ev, ks), "callseq-return", PyNone)
     [] OTHER -> R(st, FALSE, "unsupported", PyNone)
 RECURSIVE JRun(_, _, _, _, _, _)
 JRun(evs, n, st, ok, why, ks) ==
